@@ -102,6 +102,43 @@ def _check(case):
     return (nontrivial, fp, None)
 
 
+DTYPES = ("bool", "int8", "uint8", "int16", "float32", "int64", "float64")
+
+
+def _check_dtype(case):
+    """the container dtype of the inputs must not matter: selection_rate / mean_prediction / the four rates on numpy arrays of narrow dtypes (many rows)
+    against plain-Python arithmetic on the same values"""
+    import fairlearn.metrics as fm
+    n, dt, npos, weighted, seed = case
+    rng = np.random.default_rng(seed)
+    yp = np.array([1] * npos + [0] * (n - npos))
+    rng.shuffle(yp)
+    yt = rng.integers(0, 2, n)
+    yt[:2] = (0, 1)
+    w = [int(x) for x in rng.integers(1, 4, n)] if weighted else None
+    fp = fingerprint(case)
+    ws = w or [1] * n
+    tot = sum(ws)
+    arr = lambda v: np.asarray(v).astype(dt)
+    exp = {"selection_rate": sum(k for k, p in zip(ws, yp) if p == 1) / tot, "mean_prediction": sum(k * int(p) for k, p in zip(ws, yp)) / tot}
+    pos = sum(k for k, t in zip(ws, yt) if t == 1)
+    neg = tot - pos
+    exp["true_positive_rate"] = sum(k for k, t, p in zip(ws, yt, yp) if t == 1 and p == 1) / pos
+    exp["false_positive_rate"] = sum(k for k, t, p in zip(ws, yt, yp) if t == 0 and p == 1) / neg
+    for name, want in exp.items():
+        f = getattr(fm, name)
+        for which, a_t, a_p in (("predictions", yt, arr(yp)), ("labels and predictions", arr(yt), arr(yp))):
+            try:
+                got = float(f(a_t, a_p, sample_weight=w) if w else f(a_t, a_p))
+            except Exception as ex:
+                return (True, fp, (f"C14:{name}:raises:dtype", f"{name} raised {type(ex).__name__}: {ex} for {dt} {which}"[:300], {"case": [str(c) for c in case]}))
+            if not S.close(got, want):
+                return (True, fp, (f"C14:{name}:value:input-dtype", f"{name} on {n} rows with {which} stored as {dt} ({npos} positive predictions, weights {'given' if w else 'omitted'}): "
+                                   f"got {got!r}, plain arithmetic gives {want!r}", {"function": name, "dtype": dt, "n": n, "y_true": yt.tolist(), "y_pred": yp.tolist(),
+                                                                                     "sample_weight": w, "got": got, "expected": want}))
+    return (True, fp, None)
+
+
 def run_bounded(rep):
     rep.assume("A1")
     nmax, extra = (3, 300) if rep.tier == "quick" else (5, 5000)
@@ -110,3 +147,9 @@ def run_bounded(rep):
               rule="all (y_true,y_pred) in {0,1}^n x {0,1}^n, n<=%d, under 7 encodings/pos_label settings, weights None or all of {1,2,3}^n (n<=3), plus "
                    "%d seeded longer vectors; non-trivial = n>=2 or weighted; distinct by full case" % (nmax, extra),
               bound=f"n <= {nmax} exhaustive, seeded up to n = {nmax + 5}", cases=cases, check_case=_check, exhaustive=False)
+    sizes = (4, 40, 300) if rep.tier == "quick" else (4, 40, 300, 3000)
+    dcases = [(n, dt, max(1, int(n * fr)), wt, rep.seed + i) for i, (n, dt, fr, wt) in enumerate(itertools.product(sizes, DTYPES, (0.25, 0.75, 1.0), (False, True)))]
+    run_cases(rep, "input_dtypes_rtc",
+              rule="n in %s rows x dtype of the arrays in %s x 25/75/100%% positive predictions x weights omitted / small integers: selection_rate, mean_prediction, TPR, FPR "
+                   "against plain-Python arithmetic on the same values; distinct by full case" % (list(sizes), list(DTYPES)), bound=f"n <= {sizes[-1]}", cases=dcases,
+              check_case=_check_dtype, exhaustive=False)
